@@ -70,10 +70,10 @@ Definition bytes_int_case (c : list Z * Z) : bool :=
   let '(s, v) := c in (match bytes_int s with Some n => n | None => -100000 end) =? v.
 Definition int16_case (c : text * Z) : bool := let '(w, v) := c in (if int16_ok w then 1 else 0) =? v.
 
-(* line classifiers alone: (line, blank, counter, timecode) and (line, blank, note, style, arrow, cue) *)
+(* line classifiers alone: (line, blank, counter, timecode, int() of an hour field raises) and (line, blank, note, style, arrow, cue) *)
 Definition b2z (b : bool) : Z := if b then 1 else 0.
 Definition srt_view_case (c : text * list Z) : bool :=
-  let '(l, fl) := c in let v := srt_classify l in text_eqb [b2z (sv_blank v); b2z (sv_counter v); b2z (sv_tc v)] fl.
+  let '(l, fl) := c in let v := srt_classify l in text_eqb [b2z (sv_blank v); b2z (sv_counter v); b2z (sv_tc v); b2z (sv_tc_long v)] fl.
 Definition vtt_view_case (c : text * list Z) : bool :=
   let '(l, fl) := c in let v := vtt_classify l in
   text_eqb [b2z (vv_blank v); b2z (vv_note v); b2z (vv_style v); b2z (vv_arrow v); b2z (vv_cue v)] fl.
